@@ -181,23 +181,36 @@ def denotes(src, target, path, problems, part):
         return
     # WFN / WFX: every listed orbital must be an orbital of the object; occupation per spatial function must agree
     spins = table.get("spins")
-    clusters = []  # [representative values, tolerance, [source entries], [file entries]]
-    for e in entries:
-        for c in clusters:
-            if (np.abs(c[0] - e[0]) <= c[1] + e[1]).all():
-                c[2].append(e)
-                break
-        else:
-            clusters.append([e[0], e[1], [e], []])
+    # spatial functions of the object: connected components of "equal within tolerance" (degenerate or coinciding
+    # orbitals, e.g. the alpha and beta copy of a closed shell, share one component)
+    parent = list(range(len(entries)))
+
+    def find(i):
+        while parent[i] != i:
+            parent[i] = parent[parent[i]]
+            i = parent[i]
+        return i
+
+    for i, ei in enumerate(entries):
+        for j in range(i):
+            if find(i) != find(j) and (np.abs(ei[0] - entries[j][0]) <= ei[1] + entries[j][1]).all():
+                parent[find(i)] = find(j)
+    comp = {}
+    for i, e in enumerate(entries):
+        comp.setdefault(find(i), [None, None, [], []])[2].append(e)
+    clusters = list(comp.values())
+    root_of = {id(e): find(i) for i, e in enumerate(entries)}
     r_e, a_e = ENERGY_TOL[target]
     r_o, a_o = OCC_TOL[target]
     for i, (num, occ, en, _coefs) in enumerate(table["mos"]):
-        for c in clusters:
-            if (np.abs(c[0] - v_file[i]) <= c[1]).all():
-                c[3].append((occ, en, spins[i] if spins else None))
-                if not any(np.isnan(e[3]) or abs(e[3] - en) <= r_e * abs(e[3]) + a_e + 1e-15 for e in c[2]):
-                    problems.append(("independent-reader", f"orbital {num} of the file has energy {en!r}, the matching orbitals of the object have {[e[3] for e in c[2]]}"))
-                break
+        for e in entries:
+            if not (np.abs(e[0] - v_file[i]) <= e[1]).all():
+                continue
+            c = comp[root_of[id(e)]]
+            c[3].append((occ, en, spins[i] if spins else None))
+            if not any(np.isnan(m[3]) or abs(m[3] - en) <= r_e * abs(m[3]) + a_e + 1e-15 for m in c[2]):
+                problems.append(("independent-reader", f"orbital {num} of the file has energy {en!r}, the matching orbitals of the object have {[m[3] for m in c[2]]}"))
+            break
         else:
             problems.append(("independent-reader", f"orbital {num} of the file (occupation {occ}) is not an orbital of the object: values at the probe points {v_file[i][:3].tolist()}..."))
     for c in clusters:
